@@ -408,7 +408,7 @@ def extreme_jobs(ctx):
                 orders = ['col']
                 if ctx.tier == 'thorough' or (n_long + n_short + transposed) % 2 == 0:
                     orders += ['row']
-                if ctx.tier == 'thorough' or (n_long + n_short + transposed) % 4 == 1:
+                if ctx.tier == 'thorough' or (n_long + n_short + transposed) % 4 in (1, 3):
                     orders += ['shuffle']
                 for order in orders:
                     k = rng.random()
